@@ -95,12 +95,24 @@ def r191(facts, res):
         per_site = {}
         for p in ps:
             for ei, e in enumerate(p.events):
-                if e[0] != 'call' or not e[2] or e[2]['name'] not in ('index', 'index_mut', 'get_unchecked'):
+                if e[0] == 'assert' and e[4] == 'BoundsCheck':
+                    # built-in indexing of a slice by a number (`rest[j + 1]` with `rest = &self.newlines[a..]`): MIR has no call,
+                    # only `assert Lt(index, len(slice))`; it is an index site of the table when the slice is a view of it
+                    c = e[2]
+                    if not (isinstance(c, tuple) and len(c) == 4 and c[0] == 'bin' and c[1] == 'Lt' and isinstance(c[3], tuple) and c[3] and c[3][0] == 'len'):
+                        if c is None or term_has(c, is_table):
+                            per_site.setdefault((e[1], b.term(e[1]).get('line')), {'ok': 0, 'bad': []})['bad'].append(('bounds check of unknown shape', fmt_term(c)[:140] if c else '?', []))
+                        continue
+                    if not term_has(c[3], is_table):
+                        continue
+                    ix, base = c[2], c[3][1]
+                elif e[0] != 'call' or not e[2] or e[2]['name'] not in ('index', 'index_mut', 'get_unchecked'):
                     continue
-                st = e[2].get('self_ty') or ''
-                if not st.startswith(TABLE_TY) or len(e[3]) != 2:
-                    continue
-                base, ix = e[3]
+                else:
+                    st = e[2].get('self_ty') or ''
+                    if not st.startswith(TABLE_TY) or len(e[3]) != 2:
+                        continue
+                    base, ix = e[3]
                 # All conditions of the path are used, including those decided after the index: terms are pure functions of
                 # the inputs, every execution reaching the index follows SOME enumerated path to its end (an execution that
                 # would fail here is matched by a path for any value of the failed read), and the obligation is proved for
